@@ -7,6 +7,8 @@ From ClapModel Require Import Parse.Cmd Parse.Build Parse.Valid Parse.Matcher Pa
 From ClapModel Require Import ParseProofs.Safe ParseProofs.Invariant ParseProofs.Totality
                               ParseProofs.ValidateTotal ParseProofs.Relations ParseProofs.TotalityMain
                               ParseProofs.Sites ParseProofs.SitesComplete.
+From ClapModel Require Import Errors.RenderModel Errors.RenderLink.
+From ClapModel Require Gen.ErrorCtx.
 From ClapModel Require Gen.ParseSites.
 From Coq Require Import ZArith.
 From RecordUpdate Require Import RecordSet.
@@ -143,3 +145,68 @@ Theorem C01_model_sites_listed : forall c0 toks s,
   do_parse c0 toks = OPanicked s -> In s (modelled_sites ++ callee_sites).
 Proof. exact model_sites_listed. Qed.
 Print Assumptions C01_model_sites_listed.
+
+(** ---------- round 2 (2): "the error can always be rendered" ----------
+    Errors/RenderModel.v models the error value (kind, message Raw | Formatted | none, ordered context of
+    (ContextKind, ContextValue), source, help flag), every constructor of error/mod.rs the parse path calls,
+    Error::render/formatted, RichFormatter::format_error, write_dynamic_context (panic sites visible: the
+    `as_str().unwrap()` of format.rs, the `others.pop().unwrap()` of mod.rs). *)
+
+(** rendering never panics -- for ANY error value (any kind, any context, any message), whatever
+    [<str as Debug>::fmt] (used by [Escape]) returns *)
+Theorem C01_render_total : forall (str_debug : bytes -> bytes) (e : rerror) s, render str_debug e <> Panic s.
+Proof. exact render_total. Qed.
+Print Assumptions C01_render_total.
+
+(** the two constructors that contain an [unwrap] never reach it *)
+Theorem C01_conflict_ctors_total : forall c x others usage,
+  (exists e, argument_conflict c x others usage = Done e) /\ (exists e, subcommand_conflict c x others usage = Done e).
+Proof. exact conflict_ctors_total. Qed.
+Print Assumptions C01_conflict_ctors_total.
+
+(** the tables behind the model are the source's today (Gen/ErrorCtx.v regenerated on every run): which kinds have
+    an [as_str] text, the ContextKind enum, per constructor the context kinds attached unconditionally / conditionally
+    in order, and "format.rs contains exactly one unwrap and no expect/index/unreachable" *)
+Theorem C01_error_tables_match :
+  List.map (fun k => (ekind_name k, is_some (kind_as_str k))) all_kinds = Gen.ErrorCtx.gen_kind_has_msg
+  /\ List.map ckind_name all_ckinds = Gen.ErrorCtx.gen_context_kinds
+  /\ model_ctor_ctx = Gen.ErrorCtx.gen_ctor_ctx
+  /\ Gen.ErrorCtx.gen_format_sites = [("write_dynamic_context", "unwrap", 0%N)]%string.
+Proof. exact (conj kind_has_msg_match (conj context_kinds_match (conj ctor_ctx_match ctx_format_sites_match))). Qed.
+Print Assumptions C01_error_tables_match.
+
+(** the errors of the parse path have every kind except Io and Format -- for every definition (any class) *)
+Theorem C01_parser_error_kinds : forall c0 toks e,
+  do_parse c0 toks = OErr e -> e_kind e <> EIo /\ e_kind e <> EFormat.
+Proof. exact parser_error_kinds_ne. Qed.
+Print Assumptions C01_parser_error_kinds.
+
+(** MAIN (rendering).  For EVERY definition (valid or not, any class) and EVERY token list: if the parser model
+    returns an error [e], then [rich_alternatives e] -- the rich errors [e] stands for: per kind, each constructor
+    the parse path uses for that kind -- is non-empty, and each of them (1) is built by a modelled constructor,
+    (2) has the kind of [e] (or its jaro-dependent alternative), (3) renders without panic, (4) where a specific
+    message is expected (no pre-formatted message, kind other than InvalidUtf8) carries the context
+    [write_dynamic_context] asks for, so the specific message is produced. *)
+Theorem C01_renders : forall c0 toks e, do_parse c0 toks = OErr e ->
+  rich_alternatives e <> []
+  /\ forall r, In r (rich_alternatives e) ->
+       constructed r
+       /\ (r_kind r = e_kind e \/ Some (r_kind r) = e_alt e)
+       /\ (forall dbg s, render dbg r <> Panic s)
+       /\ (rich_expected r = true -> forall dbg, exists txt, write_dynamic_context dbg r = Done (true, txt)).
+Proof. exact parser_errors_render. Qed.
+Print Assumptions C01_renders.
+
+(** every constructed error (not only the placeholders of [rich_alternatives]) gets its specific message *)
+Theorem C01_constructed_rich : forall dbg e, constructed e -> rich_expected e = true ->
+  exists txt, write_dynamic_context dbg e = Done (true, txt).
+Proof. exact constructed_rich. Qed.
+Print Assumptions C01_constructed_rich.
+
+(** what the model driver of stream `errctx` prints (a literal table, extracted without the texts) is the signature
+    -- message form, ordered (context kind, value variant), specific message expected -- computed from the
+    constructor functions above; the run compares it with `Error::context()` / the message form / the rendered
+    text of the implementation's error on every generated case *)
+Theorem C01_signature_table : forall e, error_signature_table e = error_signature e.
+Proof. exact error_signature_table_ok. Qed.
+Print Assumptions C01_signature_table.
